@@ -171,7 +171,8 @@ pub fn shapes(cfg: &ShapeCfg) -> Vec<Shape> {
       for to in &outs {
         for rp in &cfg.repeats {
           let mut abss: Vec<Vec<KeyCode>> = vec![vec![]];
-          if cfg.absorbing { for m in ms { abss.push(vec![*m]); } }
+          // every non-empty subset of the other trigger keys
+          if cfg.absorbing { for mask in 1..(1u32 << ms.len()) { abss.push(ms.iter().enumerate().filter(|(i, _)| mask & (1 << i) != 0).map(|(_, k)| *k).collect()); } }
           for ab in abss {
             let mut from = ms.clone();
             from.push(*f);
